@@ -11,6 +11,11 @@ const (
 	msgTypeObjectOrArray string = `object/array`
 )
 
-var emptyEntity = struct{}{}
+// emptyEntityType is the type of the internal "no value" marker. It is a
+// named type so that a struct{}{} found in the source data is not mistaken
+// for the marker.
+type emptyEntityType struct{}
+
+var emptyEntity = emptyEntityType{}
 var emptyList = []interface{}{emptyEntity}
 var fullList = []interface{}{true}
